@@ -461,6 +461,19 @@ class C16(BaseCheck):
                 return 'observer', {'what': 'at(len) succeeded'}
             except IndexError:
                 pass
+            if items:
+                # list-like conveniences: negative positions, index() with a start
+                if m.at(-1) != items[-1][0] or canon(m.value_at(-1)) != canon(items[-1][1]):
+                    return 'observer', {'what': 'at(-1)/value_at(-1)'}
+                k0 = items[0][0]
+                if len(items) > 1:
+                    try:
+                        m.index(k0, 1)
+                        return 'observer', {'what': 'index(first key, 1) found it'}
+                    except ValueError:
+                        pass
+                    if m.index(items[-1][0], 1) != len(items) - 1:
+                        return 'observer', {'what': 'index(last key, 1)'}
         except Exception as e:  # an observer raising is a violation of "every key yielded can be read"
             return 'observer', {'what': 'observer raised', 'exc': type(e).__name__, 'msg': str(e)[:200]}
         return None
